@@ -95,7 +95,7 @@ Definition tick (t : nat) (s : state) : state * list event :=
     match fr with
     | FAccept f k =>
       match nth_error (heap s) f with
-      | None => (set_stack s t rest, [])                       (* no such future: not generated *)
+      | None => (s, [])                                        (* no such future (nil receiver): never generated; stays put *)
       | Some fu =>
         if locked fu then (s, [])                              (* blocked on f.mu *)
         else match value fu with
@@ -108,7 +108,7 @@ Definition tick (t : nat) (s : state) : state * list event :=
       end
     | FComplete f v =>
       match nth_error (heap s) f with
-      | None => (set_stack s t rest, [])
+      | None => (s, [])
       | Some fu =>
         if locked fu then (s, [])
         else match value fu with
@@ -134,7 +134,7 @@ Definition tick (t : nat) (s : state) : state * list event :=
 Definition blocked (t : nat) (s : state) : bool :=
   match nth_error (stacks s) t with
   | Some (FAccept f _ :: _) | Some (FComplete f _ :: _) =>
-    match nth_error (heap s) f with Some fu => locked fu | None => false end
+    match nth_error (heap s) f with Some fu => locked fu | None => true end
   | _ => false
   end.
 
@@ -175,3 +175,31 @@ Fixpoint calls (s : state) (os : list op) : state * list (list event * outcome) 
   | o :: r => let '(s1, x) := call s o in
               let '(s2, xs) := calls s1 r in (s2, x :: xs)
   end.
+
+(* ---------- observers used to state the property (Properties/C42.v) ---------- *)
+
+(* f's current value (None = not completed) *)
+Definition value_of (s : state) (f : fid) : option N :=
+  match nth_error (heap s) f with Some fu => value fu | None => None end.
+
+(* values written into f by completions that took effect, oldest first *)
+Definition completions (f : fid) (evs : list event) : list N :=
+  flat_map (fun e => match e with ESet f' v => if Nat.eqb f f' then [v] else [] | _ => [] end) evs.
+
+(* how often the log callback tagged c registered on f has run *)
+Definition runs_count (f : fid) (c : N) (evs : list event) : nat :=
+  length (filter (fun e => match e with ERun f' c' _ => Nat.eqb f f' && N.eqb c c' | _ => false end) evs).
+
+(* how often the programs register it *)
+Definition registrations (f : fid) (c : N) (progs : list (list op)) : nat :=
+  length (filter (fun o => match o with ThenAccept f' c' => Nat.eqb f f' && N.eqb c c' | _ => false end)
+                 (concat progs)).
+
+(* every goroutine has returned from all its calls *)
+Definition quiescent (s : state) : bool :=
+  forallb (fun st => match st with [] => true | _ :: _ => false end) (stacks s).
+
+(* the ThenCompose calls of the programs as (f, user function, result future) *)
+Definition composes (progs : list (list op)) : list (fid * ucb * fid) :=
+  flat_map (fun o => match o with ThenCompose f u out => [(f, u, out)] | _ => [] end) (concat progs).
+Definition outs (progs : list (list op)) : list fid := map snd (composes progs).
